@@ -84,7 +84,9 @@ CHECKS = {
         "ulp in both signs and both cast modes, beyond-range values, infinities, NaN; RoundFin is checked by TLC against the "
         "neighbour rule and exact distances. binary64 (53-bit significands exceed TLC's integers) stays a sampled list. Integer "
         "widths in Wire.tla are <= 23 (every start offset 1..7 within a byte); widths 1..64 x cast modes x start offsets 0..7 "
-        "are sampled by the harness with closed-form expectations. UTF-8 arrays are outside.",
+        "are sampled by the harness with closed-form expectations. UTF-8 arrays are outside. The serialized bytes reach deserialize() "
+        "also through buffers whose items are 16 / 32 bits wide; three pairs of types that compare equal but order their variants / "
+        "fields differently are loaded into one process and used alternately (closed-form bytes).",
    technique="TLA+ encoder/decoder spec checked by TLC; every (type,value) state replayed into serialize/deserialize, bytes compared",
    design="4 C06"),
  "C07": dict(
@@ -137,7 +139,10 @@ CHECKS = {
    note="Trees of <= 3 (quick) / 4 (thorough) files, depth 0-2, .dsdl/.uavcan; 7 resolved directories x 3 spellings, <= 2 "
         "lookups. File-system enumeration order is explored on the specification only; hash seeds are forced (5 / 24). The lookup "
         "directory of the tree cases is alternately a namespace of the root's own name; read_files is also called with relative spellings "
-        "from each scratch tree's root, case after case in one process.",
+        "from each scratch tree's root, case after case in one process. Histories of two calls that share their directory-argument list "
+        "objects (Sessions.tla) return what each call returns alone. Known finding F18: twin files of one name, version and layout are "
+        "merged silently and the survivor varies with the hash seed (matched by kind = twin-files, same_layout = true; twins of "
+        "different layout must be rejected).",
    technique="TLA+ pipeline and directory rule checked by TLC; every state materialised; hash-seed subprocess comparison",
    design="4 C10"),
  "C19": dict(
@@ -170,7 +175,8 @@ CHECKS = {
         "model's outcome is compared with the real outcome for every combination.",
    note="The tree lives below a directory named like the root in another letter case; nested files are read again with the inner "
         "directory as root in the same process. One root with a second root before / after; root names unique except for one nested directory named like the root. "
-        "int() leniency in file names is not judged.",
+        "int() leniency in file names is not judged. Messages and services: the request / response part of a service carries the "
+        "service's name extended by one component, its version and back pointers, and no port-ID (PartsShape).",
    technique="TLA+ declarative identity/promise spec enumerated by TLC; every state executed against read_files/read_namespace",
    design="4 C15"),
  "C04": dict(
@@ -182,7 +188,9 @@ CHECKS = {
    note="Magnitudes are guarded at 30000 (TLC has 32-bit integers); real exponents, negative bitwise operands, string "
         "concatenation / NFC and wide integers are outside TLC and covered by a fixed list in the harness; min / max of "
         "singleton sets of unordered kinds and of sets of sets that are not chains are not judged. Operand kinds include data types "
-        "and sets of data types (no operator but the attribute one applies).",
+        "and sets of data types (no operator but the attribute one applies). The fixed list also reads constants of every type by name "
+        "(false, 0, 0.0, NUL among them), holds results that need more digits than a float's shortest repr, and is read a second time "
+        "with strict=True (as is one rendering of every enumerated expression): no change for texts within the Specification.",
    technique="TLA+ evaluator and precedence table checked/enumerated by TLC; every state rendered and evaluated by pydsdl",
    design="4 C04"),
  "C05": dict(
@@ -213,7 +221,8 @@ CHECKS = {
         "character noise, 31 file-name shapes and 6 duplicate file sets are read: model or InvalidDefinitionError with path; the "
         "recorded chain of exception conversions of every rejected mutation is validated by TLC (TraceFunnel.tla).",
    note="Known finding F10 (4300-digit rendering limit) is matched by its cause. Unbounded power towers are excluded "
-        "(bounded magnitude); all Unicode strings are sampled.",
+        "(bounded magnitude); all Unicode strings are sampled. Nesting is not bounded any more (F19 fixed: 45..400 levels, chains of "
+        "3 000 operators are corner texts); every file-name shape is also a read_files target under five designations (F21 fixed).",
    technique="TLA+ propagation model checked by TLC; TLC-enumerated token mutations and harness noise read by pydsdl",
    design="4 C13"),
  "C18": dict(
@@ -225,7 +234,9 @@ CHECKS = {
         "after use; pickling round-trips; accessor histories are replayed.",
    note="Objects that were used here are also pickled (protocols 2 and highest) and unpickled in another interpreter with another "
         "hash seed, where they must equal - and hash like - freshly read ones. byte / utf8 and service types are outside the enumerated universe of pairs; expression values and bit length sets are "
-        "compared over fixed / random lists by the harness.",
+        "compared over fixed / random lists by the harness. Accessor histories also run on structures / unions / delimited wrappers built "
+        "through the public constructors, where the caller's own attribute list is one of the lists mutated, and on structures built "
+        "from a generator / tuple.",
    technique="TLA+ equality-by-key and aliasing machine checked by TLC; every pair / history replayed on real objects",
    design="4 C18"),
  "C16": dict(
